@@ -237,7 +237,7 @@ theorem wireOPT_len_eq (c : OptCfg) (e : EDE) (dg : Bytes) (n : Nat)
     · simp [hbig] at hl
     · have hfit : ¬ (c.addrLen + clientCookieHexLen + c.secretLen > cookiePreimageMax) := by omega
       simp only [hbig, if_false, Option.some.injEq] at hl
-      simp only [hc, Option.isSome_some, true_and, hfit, if_false, Option.some.injEq]
+      simp only [Option.isSome_some, true_and, hfit, if_false, Option.some.injEq]
       refine ⟨_, rfl, ?_⟩
       subst hl
       simp only [wireOptionList, hc, appendOptions_eq_encOptions, List.length_append, List.length_cons, List.length_nil,
